@@ -1041,6 +1041,23 @@ def c01(res, tier, seed, lib):
                       "rc=%s class=%s out=%r" % (rc, cls, out[:40]))
             res.check(msg is not None and ("'%s'" % t) in msg, "error-names-the-text", "cli:color argument", inp, repr(msg))
     res.tag("cli:accepted", n_acc); res.tag("cli:rejected", n_rej)
+    # the same strings one per line on stdin (also the empty and the blank line): a rejected line is
+    # reported, not skipped and not taken for the end of input
+    rej = [t for t, i in zip(texts, inf) if not i.ok and t == t.strip() and "\t" not in t][:40 if tier != "thorough" else 400]
+    for t in ["", " ", "\t", "  \t "] + rej:
+        data = ("red\n" + t + "\nblue\n").encode()
+        rc, out, err = run_cli(["format", "hex"], stdin=data)
+        inp = "format hex < %r" % data
+        res.case(inp)
+        cls, msg = classify_stderr(err)
+        res.check(rc == 1 and out == b"#ff0000\n" and cls == "color-parse", "stdin-line-rejected-like-argument", "cli:stdin", inp,
+                  "rc=%s out=%r class=%s" % (rc, out[:60], cls))
+    for t in [x for x, i in zip(texts, inf) if i.ok][:30 if tier != "thorough" else 300]:
+        data = ("  " + t + " \n").encode()
+        rc, out, err = run_cli(["format", "hex"], stdin=data)
+        rc2, out2, _ = run_cli(["format", "hex", t])
+        res.case("format hex < %r" % data)
+        res.check(rc == rc2 == 0 and out == out2, "stdin-line-accepted-like-argument", "cli:stdin", repr(data), "%r vs %r" % (out[:40], out2[:40]))
 
 
 def c05(res, tier, seed, lib):
@@ -1086,7 +1103,7 @@ def c07(res, tier, seed, lib):
         cols = ["#%02x%02x%02x" % (rnd.randrange(256), rnd.randrange(256), rnd.randrange(256)) for _ in range(rnd.randrange(1, 4))]
         if k % 5 == 0:
             cols[0] = "rgba(%d,%d,%d,0.%d)" % (rnd.randrange(256), rnd.randrange(256), rnd.randrange(256), rnd.randrange(1, 10))
-        sp = rnd.choice(["rgb", "hsl", "lab", "lch", "oklab", "RGB", "Lab", "OkLab"])
+        sp = rnd.choice(["rgb", "hsl", "lab", "lch", "oklab", "RGB", "Lab", "OkLab", "Rgb", "rGB", "LCH", "Lch", "Hsl", "HSL", "OKLAB", "Oklab", "LAB", "LCh", "oKLab"])
         f = rnd.choice(["0", "1", "0.5", "0.25", "%.3f" % rnd.random(), "2", "1e-9"])
         argv = ["mix", "-f", f, "-s", sp, base] + cols
         rc, out, err = run_cli(argv)
@@ -1100,6 +1117,9 @@ def c07(res, tier, seed, lib):
             res.check(all(l == binf.hsl for l in lines) if eight else True, "fraction-1-gives-base", "cli:mix", inp, "%s vs base %s" % (lines, binf.hsl))
         if rc == 0 and float(f) == 0:
             res.check(lines == [c.hsl for c in cinf], "fraction-0-gives-colour", "cli:mix", inp, "%s vs %s" % (lines, [c.hsl for c in cinf]))
+        if rc == 0 and sp != sp.lower():
+            rcl, outl, _ = run_cli(["mix", "-f", f, "-s", sp.lower(), base] + cols)
+            res.check(out == outl, "colorspace-name-any-case", "cli:mix", inp, "%r, with -s %s: %r" % (out[:80], sp.lower(), outl[:80]))
         op = "cli mix 3 %s %s %s %d %s 0" % (hexs(base), hexs(f), hexs(sp), len(cols), " ".join(hexs(c) for c in cols))
         ops.append(op); meta.append((inp, "ok %d %s - -" % (rc, hexs(out))))
     for (inp, impl), mo in zip(meta, model_batch(ops)):
@@ -1191,6 +1211,8 @@ def c20(res, tier, seed, lib):
 def c08(res, tier, seed, lib):
     rnd = random.Random(seed)
     spaces = ["rgb", "hsl", "lab", "lch", "oklab"]
+    spell = {"rgb": ["rgb", "RGB", "Rgb", "rGb"], "hsl": ["hsl", "HSL", "Hsl"], "lab": ["lab", "Lab", "LAB"], "lch": ["lch", "LCh", "LCH", "Lch"],
+             "oklab": ["oklab", "OkLab", "OKLAB", "Oklab", "OKLab"]}
     combos = [(n, k, sp) for n in range(2, 13) for k in range(2, 6) for sp in spaces]
     if tier != "thorough":
         combos = [c for i, c in enumerate(combos) if i % 3 == seed % 3]
@@ -1198,8 +1220,9 @@ def c08(res, tier, seed, lib):
     for (n, k, sp) in combos:
         texts = [rand_color_text(rnd) for _ in range(k)]
         inf = infos(texts)
-        rc, out, err = run_cli(["gradient", "-n", str(n), "-s", sp] + texts)
-        inp = "gradient -n %d -s %s %s" % (n, sp, texts)
+        spx = rnd.choice(spell[sp])      # any letter case of the name selects the same space
+        rc, out, err = run_cli(["gradient", "-n", str(n), "-s", spx] + texts)
+        inp = "gradient -n %d -s %s %s" % (n, spx, texts)
         res.case(inp, True)
         lines = out.decode().split("\n")
         if lines and lines[-1] == "":
